@@ -549,15 +549,17 @@ func c27(c *report.Check) {
 	dist := report.NewDistinct(8)
 	classes := map[string]int{}
 	d11 := map[string]int{}
+	sink := newViolSink(c)
+	defer sink.flush()
 	for i, cs := range cases {
 		o := outs[i]
 		classes[o.Class]++
 		for _, p := range o.Problems {
-			c.Violation(fmt.Sprintf("c27:%s:alpn%d:%s", cs.Slots, cs.Alpn, p), fmt.Sprintf("slots=%s alpn=%d: %s; %v", cs.Slots, cs.Alpn, p, o.Info), cs)
+			sink.add(fmt.Sprintf("c27:%s:alpn%d:%s", cs.Slots, cs.Alpn, p), fmt.Sprintf("slots=%s alpn=%d: %s; %v", cs.Slots, cs.Alpn, p, o.Info), cs)
 		}
 		if o.D11Kinds != "" {
 			d11[o.D11Kinds]++
-			c.Violation("c27:routes-present-none-reachable-reported-not-found:"+o.D11Kinds,
+			sink.add("c27:routes-present-none-reachable-reported-not-found:"+o.D11Kinds,
 				fmt.Sprintf("H has routes, every attempt failed (%s, no no-direct), DialClient returned ErrDestinationNotFound instead of ErrTunnelClientNotConnected; first such input: slots=%s alpn=%d %v", o.D11Kinds, cs.Slots, cs.Alpn, o.Info), cs)
 		}
 		dist.See(o.Class+":"+sortedSyms(cs.Slots), o.Info)
